@@ -44,6 +44,12 @@ type segmentState struct {
 }
 
 // Commit converts the in-memory state into a PersistentState.
+// isClosed reports whether this is the empty placeholder state installed by
+// Close. None of its fields may be used.
+func (s *state) isClosed() bool {
+	return s.segments == nil
+}
+
 func (s *state) Persistent() types.PersistentState {
 	segs := make([]types.SegmentInfo, 0, s.segments.Len())
 	it := s.segments.Iterator()
